@@ -427,3 +427,100 @@ Example ex_mvar_hasc_applied :
                ivs_data := [{| ivd_wdc := 1; ivd_ric := 1; ivd_regions := [0]; ivd_data := [0; 100] |}] |} in
   nth 0 (process_mvar st [8192] false [(1751216995, 0, 0)] [900; -300]) 0 = 950.
 Proof. vm_compute. reflexivity. Qed.
+
+(* ======================================================================================== *)
+(* (f) CFF2: instancing charstrings.  A value is the numerator of an exact rational over
+   UNIT = 2^48 (Model/Type2.v); `sv_from` is `impl From<f32> for StackValue` (the conversion
+   cff2::blend uses to push a blended operand back on the charstring stack, regenerated from the
+   source as an expression), `enc_sv` is `impl WriteBinary for StackValue`, `inst_emit` what
+   CharStringInstancer::visit writes for one operator.  The names of Model/Type2.v shadow those of
+   Model/Variation.v from here on. *)
+From AV Require Import Gen.Type2Consts Gen.Cff2InstConsts Model.Type2 Model.Type2Spec
+  Model.Cff2Instance Proofs.Cff2InstanceProofs.
+
+(* every operand the instancer writes is one of the number forms of the charstring format, for
+   every i16 and every 16.16 value ... *)
+Theorem C12_cff2_operand_encoding : forall v, sv_wf v -> encodes (enc_sv v) (sv_value v).
+Proof. exact enc_sv_encodes. Qed.
+Print Assumptions C12_cff2_operand_encoding.
+
+(* ... so the interpreter that loads the instance reads back exactly the value that was written *)
+Theorem C12_cff2_operand_roundtrip : forall v, sv_wf v -> forall df e d rest s,
+  run (S df) e d (enc_sv v ++ rest) s = s1 <~ push e (sv_value v) s ;; run (S df) e d rest s1.
+Proof. exact enc_sv_decodes. Qed.
+Print Assumptions C12_cff2_operand_roundtrip.
+
+(* a blended operand default + sum(scalar * delta) = v goes back on the stack as a representable
+   operand within 2^-17 of v, and unchanged when v is a whole number: the fraction is kept *)
+Theorem C12_cff2_blended_operand : forall v, operand_range v ->
+  sv_wf (sv_from v) /\
+  2 * 65536 * Z.abs (sv_value (sv_from v) - v) <= UNIT /\
+  (v mod UNIT = 0 -> sv_value (sv_from v) = v).
+Proof. exact sv_from_close. Qed.
+Print Assumptions C12_cff2_blended_operand.
+
+(* charstring operands are relative moves: the errors of n consecutive operands add up to at most
+   n * 2^-17, so a point that is the running sum of up to 2^17 operands stays within one unit *)
+Theorem C12_cff2_operand_drift : forall vs, Forall operand_range vs ->
+  2 * 65536 * Z.abs (sumZ (map emitted vs) - sumZ vs) <= len vs * UNIT.
+Proof. exact drift_bound. Qed.
+Print Assumptions C12_cff2_operand_drift.
+
+Theorem C12_cff2_drift_within_one_unit : forall vs, Forall operand_range vs -> len vs <= 131072 ->
+  Z.abs (sumZ (map emitted vs) - sumZ vs) <= UNIT.
+Proof. exact drift_within_one_unit. Qed.
+Print Assumptions C12_cff2_drift_within_one_unit.
+
+(* from operands to outline points: two paths whose primitives have operands at most eps apart
+   have every coordinate at most (operands per axis) * eps apart, and the same segments *)
+Theorem C12_cff2_path_drift : forall eps ps ps', 0 <= eps -> Forall2 (prim_close eps) ps ps' ->
+  Forall2 (cmd_close (nops ps * eps)) (path_of ps) (path_of ps').
+Proof. exact path_drift. Qed.
+Print Assumptions C12_cff2_path_drift.
+
+(* the bytes the instancer writes for a sequence of visited operators (each with the operand
+   stack it is visited with) are an encoding of these operators ... *)
+Theorem C12_cff2_emitted_charstring : forall visits, Forall visit_ok visits ->
+  enc_ops (map fst visits) (inst_emit_all visits).
+Proof. exact inst_emit_all_enc_ops. Qed.
+Print Assumptions C12_cff2_emitted_charstring.
+
+(* ... hence the charstring of the instance is static: loaded without any variation data it draws
+   the path of the visited operators (interp = spec of property C18) *)
+Theorem C12_cff2_instance_is_static : forall e visits fd subrs,
+  e_kind e = KCFF2 ->
+  glyph_fd e = Some fd -> nth_opt (e_fds e) fd = Some subrs ->
+  nth_opt (e_glyphs e) (e_gid e) = Some (inst_emit_all visits) ->
+  Forall visit_ok visits ->
+  prog_wf CFF2_MAX_OPERANDS None (map fst visits) ->
+  exists s, interp_glyph e = COk s /\ out s = prog_path (map fst visits).
+Proof. exact instance_draws_visits. Qed.
+Print Assumptions C12_cff2_instance_is_static.
+
+(* non-vacuity.  102 - 2^-17 (default 102, delta -1/8, scalar 2^-14): the fraction rounds up to
+   1.0 and carries into the integer part (before the fix 6abfa85 the carry was lost whenever the
+   integer part was odd: 101.0, one unit off); 100.25 keeps its fraction; a whole number is an
+   Int; the encodings *)
+Example ex_cff2_carry : sv_from (102 * UNIT - 2147483648) = SFixed (102 * 65536).
+Proof. vm_compute. reflexivity. Qed.
+Example ex_cff2_fraction :
+  (sv_from (100 * UNIT + UNIT / 4), sv_from (-(100 * UNIT + UNIT / 4)), sv_from (-300 * UNIT))
+  = (SFixed 6569984, SFixed (-6569984), SInt (-300)).
+Proof. vm_compute. reflexivity. Qed.
+Example ex_cff2_enc :
+  map enc_sv [SInt 0; SInt 107; SInt 108; SInt (-108); SInt 1131; SInt 1132; SInt (-32768); SFixed (-8192)]
+  = [[139]; [246]; [247; 0]; [251; 0]; [250; 255]; [28; 4; 108]; [28; 128; 0]; [255; 255; 255; 224; 0]].
+Proof. vm_compute. reflexivity. Qed.
+Example ex_cff2_visit :
+  inst_emit_all [(SRMove 0 (of_int 5), [SInt 0; SInt 5]); (SHLine [of_fixed 98304], [SFixed 98304])]
+  = [139; 144; 21; 255; 0; 1; 128; 0; 6].
+Proof. vm_compute. reflexivity. Qed.
+
+(* KNOWN FINDING (known/C12.json, class cff2-operand-range): outside `operand_range` the conversion
+   cannot keep the value and does not fail either: the whole number 33000 saturates to 32767
+   (`value as i16`); fractional values beyond the range wrap in Fixed::from (`int << 16` in i32, not
+   modelled).  C12_cff2_blended_operand is stated for values inside the range of a charstring
+   operand. *)
+Example ex_cff2_operand_range_known_finding :
+  (sv_from (33000 * UNIT), sv_from (-33000 * UNIT)) = (SInt 32767, SInt (-32768)).
+Proof. vm_compute. reflexivity. Qed.
